@@ -35,7 +35,12 @@ def main():
         res["demo_patched"] = "FAIL" if rc != 0 else "PASS(!)"
         res["demo_patched_tail"] = out.strip().splitlines()[-1][:200] if out.strip() else ""
         if "--suite" in sys.argv:
-            rc, out = sh("/venv/bin/python -m pytest -q -p no:cacheprovider --no-cov -x -q 2>&1 | tail -3", cwd=wt, timeout=1800)
+            # deselected: test_find_root_dir fails in any checkout below /tmp (environment), and
+            # test_nnsp_compute_nnps_distance_1 is randomly flaky on the unchanged code (unseeded 0/0)
+            rc, out = sh("/venv/bin/python -m pytest -q -p no:cacheprovider --no-cov -q "
+                         "--deselect tests/menelaus/utils/test_utils.py::test_find_root_dir "
+                         "--deselect tests/menelaus/partitioners/test_nn_space_partitioner.py::test_nnsp_compute_nnps_distance_1 2>&1 | tail -3",
+                         cwd=wt, timeout=1800)
             res["suite"] = out.strip().splitlines()[-1] if out.strip() else ""
         os.remove(os.path.join(wt, "_demo.py"))
         for p in props:
